@@ -172,6 +172,30 @@ let f _id vs =
        output_string ch (String.concat " " (_id :: List.map string_of_int (List.rev !dump_masks @ pnums @ List.rev !hz)));
        output_char ch '\n'; flush ch
      | None -> ());
+    (* The shared `visited` set exists only where the MODEL has a tuple cycle or a recursive relation: a
+       weighted-graph mismatch on a request none of whose sub-problems lies on a type-level cycle is never
+       finding F3.  (type, relation) nodes on a cycle of the model's dependency graph (Sem.deps): *)
+    let cyc_tbl = Hashtbl.create 4 in
+    let model_cyclic mi =
+      memo cyc_tbl mi (fun () ->
+        let (m, _) = List.nth models mi in
+        let rels = all_rels m in
+        let succ (t, r) =
+          List.concat_map (fun (t', rd) ->
+            if t' = t && rd.rd_rel = r then List.map (fun ((a, b), _) -> (a, b)) (deps m t rd false rd.rd_rw) else []) rels in
+        let rec closure seen = function
+          | [] -> seen
+          | x :: todo -> if List.mem x seen then closure seen todo else closure (x :: seen) (succ x @ todo) in
+        List.filter_map (fun (t, rd) ->
+          let n = (t, rd.rd_rel) in
+          if List.mem n (closure [] (succ n)) then Some n else None) rels) in
+    let on_model_cycle p a =
+      let (mi, _, _) = List.nth worlds (fst p) in
+      let (m, _, store, _, _) = penv p in
+      let cyc = model_cyclic mi in
+      List.exists (fun ((o : obj), r) -> List.mem (o.otype, r) cyc) (reach m store gfuel a) in
+    let hazard_raw = hazard in
+    let hazard p si a = on_model_cycle p a && hazard_raw p si a in
     let props = ref [] and diffs = ref [] and knowns = ref [] in
     let prop s = props := s :: !props and diff s = diffs := s :: !diffs and known s = knowns := s :: !knowns in
     let where p ((o : obj), r) = Printf.sprintf "w%d %s#r%d@%s" (fst p) (obj_s o) (int_of_n r) (subj_s (List.nth subjs (snd p))) in
